@@ -41,6 +41,10 @@ pub fn tokenize(source: &str, file_id: &FileId) -> (Vec<Token>, Vec<Diagnostic>)
                 });
 
                 match token_type {
+                    // A form feed separates like a new line but does not start a line:
+                    // editors, the language server protocol and the diagnostics renderer
+                    // all count lines by the line feed
+                    TokenType::Newline if lexer.slice() == "\u{c}" => col += 1,
                     TokenType::Newline => {
                         line += 1;
                         col = 0;
